@@ -11,22 +11,30 @@ RULE = ('one case = one PLAY statement of a history run in a real Session in bac
         'four MML strings); structured histories are rendered from command tokens (notes with #/+/-, length suffix, '
         'dots; N, P, L, T, O, <, >, MN/ML/MS/MF/MB, X substrings nested up to 4 deep, =var; and =arr(i); references, '
         'a catalogue of malformed commands) with random case, blanks and semicolons; fuzz histories are random byte '
-        'strings over the MML alphabet; non-trivial = the statement emits at least one tone or raises an error')
+        'strings over the MML alphabet; three-voice histories under syntax tandy and pcjr (after SOUND ON): 1-3 music '
+        'strings per PLAY (empty and omitted arguments included), each voice generated from the same grammar plus V, '
+        'several statements per history (state persists per voice), a deterministic family with every kind of state '
+        'command in one voice against notes in another, and fuzz; non-trivial = the statement emits at least one tone or raises an error')
 EXPLANATION = ('theorems (PcbV.Props.C42): one tone per note in order, duration and gap formulas, pauses, octave clamping '
                'and table bound over all strings, N = letter note, malformed commands raise Illegal function call, '
-               'self-inserting substrings end in Out of memory; correspondence: tone tuples, status and final play '
+               'self-inserting substrings end in Out of memory, the tones of a voice of the three-voice PLAY are a run '
+               'of that voice alone (voices_independent); correspondence: tone tuples, status and final play '
                'state of every statement compared with the compiled Lean model; oracle: expected tones computed from '
                'the command tokens by the formulas of the statement (exact fractions), independent of any parser')
 TRUSTED_BASE = ['models PcbV.Model.Mml / PcbV.Model.Play are hand transcriptions of mlparser.py and Sound.play_/emit_tone '
-                '(single voice, default syntax); NOTES, NOTE_FREQ shape, PlayState defaults and the nesting limit are '
+                '(single voice; PcbV.Model.PlayVoices: the three-voice round-robin loop of the Tandy/PCjr syntaxes); NOTES, NOTE_FREQ shape, PlayState defaults and the nesting limit are '
                 'regenerated into PcbV.Gen.Notes',
                 'the float frequency table is compared numerically (1e-9 relative) with 440*2^((i-33)/12) for the 0-based '
                 'table index i; float durations are identified with the nearest fraction of denominator <= 2*10^6']
-ASSUMPTIONS = ['Tandy/PCjr three-voice PLAY, the V command and VARPTR$ references (byte <= 8 after = or X) are not driven',
+ASSUMPTIONS = ['VARPTR$ references (byte <= 8 after = or X) are not driven; PCjr without SOUND ON (multi-string PLAY is a '
+               'Syntax error there) is not driven',
+               'the three synchronisation markers emit_synch queues at the first tone of a Tandy/PCjr PLAY are dropped '
+               'before comparing (their durations are clock differences)',
                'variables referenced from MML hold integer values (to_int rounding belongs to the number properties)',
                'queue timing (MF waits, background buffer of 32) is not compared; statements are kept below 31 queue items']
 
 S3_KEY = 'S3:frequency-index-is-note-number-minus-1'
+LOW_KEY = 'TANDY110:notes-below-110Hz-are-played-at-110Hz'
 SEMI = {'C': 0, 'D': 2, 'E': 4, 'F': 5, 'G': 7, 'A': 9, 'B': 11}
 MAX_ITEMS = 30
 
@@ -74,9 +82,10 @@ class Impl(object):
 
     CPU_LIMIT = 4.0
 
-    def __init__(self):
+    def __init__(self, syntax=None, prelude=None):
         self.errors = basic.error_table()
         self.session = None
+        self.syntax, self.prelude = syntax, prelude
         self.fresh()
 
     def fresh(self):
@@ -85,7 +94,9 @@ class Impl(object):
                 self.session.close()
             except BaseException:  # noqa
                 pass
-        self.session = basic.new_session()
+        self.session = basic.new_session(**({'syntax': self.syntax} if self.syntax else {}))
+        if self.prelude:
+            self.session.execute(self.prelude)
         self.q = RecordingQueue()
         queues = self.session._impl.queues
         queues.audio = self.q
@@ -151,11 +162,11 @@ class Impl(object):
                 return 'err%d' % n
         return 'out:%r' % text[:40]
 
-    def play_state(self):
-        """final PlayState of voice 0 as the model prints it (None if the internals moved)"""
+    def play_state(self, voice=0):
+        """final PlayState of a voice as the model prints it (None if the internals moved)"""
         try:
             snd = self.session._impl.sound
-            st = snd._state[0]
+            st = snd._state[voice]
             length = Fraction(st.length).limit_denominator(4096)
             tempo = Fraction(st.tempo).limit_denominator(4096)
             fill = Fraction(st.fill).limit_denominator(64)
@@ -166,11 +177,17 @@ class Impl(object):
 
     def run_history(self, hist):
         """hist: dict(vars=[(name, kind, value)], stmts=[bytes]) -> list of (status, [tone tuples]), state"""
+        if not self.setup(hist):
+            return [('hang', [])] * len(hist['stmts']), None
+        s = self.session
+        return self.play_all(hist)
+
+    def setup(self, hist):
         s = self.session
         out, how = self.execute(b'CLEAR')
         self.drain()
         if how != 'ok':
-            return [(how, [])] * len(hist['stmts']), None
+            return False
         for name, kind, val in hist['vars']:
             if kind == 's':
                 s.set_variable(name, bytes(val))
@@ -181,6 +198,51 @@ class Impl(object):
                 for i, v in enumerate(val):
                     if v:
                         self.execute(name[:-1] + b'(%d)=%d' % (i, v))
+        return True
+
+    def run_history_multi(self, hist):
+        """three-voice histories: every statement is [s0, s1, s2] with None for an omitted argument;
+        -> list of (status, [tone tuples without the synchronisation markers]), 'st0|st1|st2'"""
+        if not self.setup(hist):
+            return [('hang', [])] * len(hist['stmts']), None
+        s = self.session
+        names = [b'ZZP$', b'ZZQ$', b'ZZR$']
+        res = []
+        dead = False
+        for voices in hist['stmts']:
+            if dead:
+                res.append(('skipped', []))
+                continue
+            args = []
+            for name, mml in zip(names, voices):
+                if mml is None:
+                    args.append(b'')
+                else:
+                    s.set_variable(name, bytes(mml))
+                    args.append(name)
+            while args and args[-1] == b'':
+                args.pop()
+            self.drain()
+            out, how = self.execute(b'PLAY ' + b','.join(args))
+            tones = self.drain() if how == 'ok' else []
+            # emit_synch: at the first tone of a statement one silent marker per voice is queued whose
+            # duration is a difference of clock readings; not part of the music
+            if len(tones) >= 3 and all(t[0] == v and t[1] == 0 and t[4] == 0 and abs(t[2]) < 0.05
+                                       for v, t in enumerate(tones[:3])):
+                tones = tones[3:]
+            res.append((self.status_of(out, how), tones))
+            if how != 'ok':
+                dead = True
+                continue
+            self.execute(b'SOUND 100,0')
+        state = None
+        if not dead:
+            sts = [self.play_state(v) for v in range(3)]
+            state = None if None in sts else '|'.join(sts)
+        return res, state
+
+    def play_all(self, hist):
+        s = self.session
         res = []
         dead = False
         for mml in hist['stmts']:
@@ -268,6 +330,9 @@ BAD = [b'H', b'Z', b'Q', b'R', b'U', b'W', b'Y', b'I', b'J', b'K', b'V10', b'V',
        b'N=;', b'L=;', b'N=5;', b'X;', b'X1;', b'N==', b';;C']
 
 
+BAD_MULTI = [b for b in BAD if b != b'V10']     # V is a command with Tandy/PCjr sound
+
+
 def sp(rng):
     r = rng.random()
     return b'' if r < 0.75 else (b' ' if r < 0.95 else b'   ')
@@ -289,8 +354,9 @@ def lit(rng, k):
 
 
 class Gen(object):
-    def __init__(self, rng):
+    def __init__(self, rng, multivoice=False):
         self.rng = rng
+        self.multivoice = multivoice
         rng = self.rng
         self.nums = {b'I%': rng.choice(NUM_POOL), b'J%': rng.randint(0, 6), b'K!': rng.choice(NUM_POOL),
                      b'Q#': rng.choice(NUM_POOL), b'LEN.GTH%': rng.choice([1, 2, 4, 8, 16, 32, 64]),
@@ -304,6 +370,8 @@ class Gen(object):
         r = rng.random()
         if r < 0.72:
             k = rng.choice(pool)
+            if k < 0:
+                return k, sp(rng) + b'-' + lit(rng, -k)
             sign = b'+' if rng.random() < 0.08 else b''
             return k, sp(rng) + sign + lit(rng, k)
         if r < 0.90:
@@ -330,6 +398,10 @@ class Gen(object):
     def token(self, depth, allow_x):
         """-> (tok tuple, rendered bytes)"""
         rng = self.rng
+        if self.multivoice and rng.random() < 0.06:
+            # the volume command of the Tandy/PCjr sound chip
+            k, text = self.number([-1, 0, 1, 7, 8, 14, 15, 15, 16])
+            return ('V', k), cs(rng, b'V') + text
         r = rng.random()
         if r < 0.34:
             letter = rng.choice('CDEFGAB')
@@ -374,7 +446,7 @@ class Gen(object):
             self.make_sub(j)
             return ('X', j), cs(rng, b'X') + sp(rng) + cs(rng, b'S%d$' % j) + sp(rng) + b';'
         if r < 0.985:
-            b = rng.choice(BAD)
+            b = rng.choice(BAD if not self.multivoice else BAD_MULTI)
             text = cs(rng, b) if rng.random() < 0.5 else b
             head = b[:2].decode('latin-1')
             if head in ('MN', 'ML', 'MS', 'MB', 'MF') and len(b) > 2:
@@ -429,6 +501,7 @@ class Expect(object):
 
     def __init__(self):
         self.octave, self.L, self.T, self.gap = 4, 4, 120, Fraction(1, 8)
+        self.vol = 15
 
     def dur(self, L, dots):
         return Fraction(60 * 4, self.T) / L * Fraction(3, 2) ** dots
@@ -445,7 +518,7 @@ class Expect(object):
                 if ln is not None and not 0 <= ln <= 64:
                     return 5
                 L = ln if ln else self.L
-                out.append(('note', self.octave * 12 + semi + 1, self.dur(L, nd), self.gap))
+                out.append(('note', self.octave * 12 + semi + 1, self.dur(L, nd), self.gap, self.vol))
             elif k == 'N':
                 _, n, nd = t
                 if not 0 <= n <= 84:
@@ -453,7 +526,7 @@ class Expect(object):
                 if n == 0:
                     out.append(('rest', self.dur(self.L, nd)))
                 else:
-                    out.append(('note', n, self.dur(self.L, nd), self.gap))
+                    out.append(('note', n, self.dur(self.L, nd), self.gap, self.vol))
             elif k == 'P':
                 _, ln, nd = t
                 if not 0 <= ln <= 64:
@@ -484,6 +557,10 @@ class Expect(object):
                 self.gap = Fraction(1, 4)
             elif k in ('MB', 'MFMB'):
                 pass
+            elif k == 'V':
+                if not -1 <= t[1] <= 15:
+                    return 5
+                self.vol = 15 if t[1] == -1 else t[1]
             elif k == 'X':
                 e = self.run(subs[t[1]][0], subs, out)
                 if e:
@@ -517,14 +594,26 @@ def check_stmt(ctx, state, tag, case, exp, exp_err, status, tones):
     want = 'ok' if exp_err is None else 'err%d' % exp_err
     if status != want:
         return fail('status', 'expected %s, got %s' % (want, status))
+    return check_tones(ctx, state, tag, case, exp, tones)
+
+
+def check_tones(ctx, state, tag, case, exp, tones, on_voice=0, prefix=False, multivoice=False):
+    """one voice's queue against its expected notes and pauses; prefix: the statement was cut short by an
+    error (possibly of another voice), so the queue may stop early, at a command boundary"""
+    def fail(what, detail):
+        ctx.fail('%s:%s' % (what, tag), case, detail)
+        return False
+
     # regroup the observed signals: a note is a tone (freq > 0) followed, unless legato, by a silent gap
     pos = 0
     for idx, e in enumerate(exp):
         if pos >= len(tones):
+            if prefix:
+                return True
             return fail('count', 'expected %d notes/pauses, the queue has fewer signals (%d)' % (len(exp), len(tones)))
         voice, freq, dur, loop, vol = tones[pos]
         pos += 1
-        if voice != 0 or loop:
+        if voice != on_voice or loop:
             return fail('signal', 'tone %d on voice %r loop %r' % (idx, voice, loop))
         if e[0] == 'rest':
             if freq != 0:
@@ -532,7 +621,7 @@ def check_stmt(ctx, state, tag, case, exp, exp_err, status, tones):
             if not close(dur, float(e[1])):
                 return fail('pause-duration', 'pause %d lasts %r, expected %s' % (idx, dur, e[1]))
             continue
-        _, n, D, gap = e
+        n, D, gap = e[1:4]
         if freq <= 0:
             return fail('count', 'note %d (number %d) was emitted as silence' % (idx, n))
         if close(freq, stmt_freq(n)):
@@ -543,9 +632,15 @@ def check_stmt(ctx, state, tag, case, exp, exp_err, status, tones):
                 ctx.fail(S3_KEY, case, 'note number %d is played at %r Hz = 440*2^((n-34)/12); the statement\'s formula '
                          '440*2^((n-33)/12) gives %r' % (n, freq, stmt_freq(n)))
             ctx.count('S3 notes one table index below the statement')
+        elif multivoice and freq == 110.0 and stmt_freq(n - 1) < 110.0:
+            if not state.get('low'):
+                state['low'] = True
+                ctx.fail(LOW_KEY, case, 'note number %d (%.2f Hz by the table) is played at 110 Hz: the Tandy/PCjr tone '
+                         'generator does not go lower' % (n, stmt_freq(n - 1)))
+            ctx.count('Tandy/PCjr notes below 110 Hz played at 110 Hz')
         else:
             return fail('frequency', 'note %d (number %d) has frequency %r, expected %r' % (idx, n, freq, stmt_freq(n)))
-        if vol <= 0:
+        if (vol != e[4]) if len(e) > 4 else (vol <= 0):
             return fail('volume', 'note %d is emitted with volume %r' % (idx, vol))
         if not close(dur, float(D * (1 - gap))):
             return fail('duration', 'note %d sounds for %r, expected %s*(1-%s)' % (idx, dur, D, gap))
@@ -554,7 +649,7 @@ def check_stmt(ctx, state, tag, case, exp, exp_err, status, tones):
                 return fail('gap', 'note %d is not followed by its gap' % idx)
             gvoice, gfreq, gdur, gloop, gvol = tones[pos]
             pos += 1
-            if gfreq != 0 or gvoice != 0 or gloop:
+            if gfreq != 0 or gvoice != on_voice or gloop:
                 return fail('gap', 'note %d is followed by %r instead of a silent gap' % (idx, tones[pos - 1]))
             if not close(gdur, float(D * gap)):
                 return fail('gap', 'gap after note %d lasts %r, expected %s*%s' % (idx, gdur, D, gap))
@@ -802,6 +897,244 @@ def table_check(ctx, impl, state):
     ctx.count('table: octave x note name pairs', 7 * len(letters))
 
 
+# --------------------------------------------------------------------------------------------------------------
+# three-voice PLAY (syntax tandy, and pcjr after SOUND ON): one music string, one PlayState, one queue per voice
+
+def canon_tone_v(t):
+    return 'v%d:%s' % (t[0], canon_tone((0,) + tuple(t[1:])))
+
+
+def model_line_multi(hist, fuel=3000):
+    head = model_line({'vars': hist['vars'], 'stmts': []}).split(' ')
+    stmts = ','.join('+'.join(hx(m or b'') for m in voices) for voices in hist['stmts'])
+    return 'mplay %d %s %s' % (fuel, head[2], stmts)
+
+
+def jsonable_multi(hist):
+    return {'vars': jsonable({'vars': hist['vars'], 'stmts': []})['vars'],
+            'stmts': [[None if m is None else m.decode('latin-1') for m in voices] for voices in hist['stmts']]}
+
+
+def unjson_multi(h):
+    return {'vars': unjson({'vars': h['vars'], 'stmts': []})['vars'],
+            'stmts': [[None if m is None else m.encode('latin-1') for m in voices] for voices in h['stmts']]}
+
+
+def compare_multi(ctx, batch, label):
+    """batch of (hist, res, state): one driver call"""
+    if not batch:
+        return
+    lines = [model_line_multi(h) for h, _, _ in batch]
+    mouts = ctx.model(lines)
+    if mouts is None:
+        return
+    for (hist, res, state), line, m in zip(batch, lines, mouts):
+        impl = 'ok ' + ';'.join('/'.join([st] + [canon_tone_v(t) for t in tones]) for st, tones in res)
+        if state is None or any(st == 'skipped' or st.startswith('exc') or st == 'hang' for st, _ in res):
+            m_cmp = m.rsplit(' ', 1)[0]
+        else:
+            impl += ' ' + state
+            m_cmp = m
+        if impl != m_cmp:
+            ctx.disagree({'label': label, 'input': jsonable_multi(hist), 'line': line[:2000]}, impl[:2000], m_cmp[:2000])
+
+
+STATE_CMDS = [('O', b'O2', ('O', 2)), ('O', b'O6', ('O', 6)), ('>', b'>', ('>',)), ('<', b'<', ('<',)),
+              ('L', b'L16', ('L', 16)), ('L', b'L1', ('L', 1)), ('T', b'T200', ('T', 200)), ('T', b'T40', ('T', 40)),
+              ('ML', b'ML', ('ML',)), ('MS', b'MS', ('MS',)), ('MN', b'MN', ('MN',)), ('V', b'V5', ('V', 5))]
+
+
+def family_multi(rng):
+    """deterministic family: a state command in voice a, notes in voice b (every ordered pair, every kind of state
+    command, the command before / between / after the other voice's notes in the round-robin order), preceded or
+    not by a single-string PLAY that leaves voice 0 in a non-default state"""
+    hists = []
+    note = lambda ch: ('note', ch, '', None, 0)
+    for kind, text, tok in STATE_CMDS:
+        for a in range(3):
+            for b in range(3):
+                if a == b:
+                    continue
+                stmts, toks = [], []
+                if rng.random() < 0.5:
+                    stmts.append([b'MBT180O1L8MSC', None, None])
+                    toks.append([[('MB',), ('T', 180), ('O', 1), ('L', 8), ('MS',), note('C')], [], []])
+                va, ta = [b''] * 3, [[], [], []]
+                pos = rng.randint(0, 2)
+                names = 'CDEFGAB'
+                seq_a = [rng.choice(names) for _ in range(3)]
+                seq_b = [rng.choice(names) for _ in range(4)]
+                pieces = [s_.encode() for s_ in seq_a]
+                pieces.insert(pos, text)
+                ta[a] = [('MB',)] + [note(c) for c in seq_a[:pos]] + [tok] + [note(c) for c in seq_a[pos:]]
+                va[a] = b'MB' + b' '.join(pieces)
+                ta[b] = [note(c) for c in seq_b]
+                va[b] = b''.join(c.encode() for c in seq_b)
+                third = 3 - a - b
+                if rng.random() < 0.5:
+                    va[third] = None if third > 0 and rng.random() < 0.5 else b''
+                else:
+                    va[third], ta[third] = b'P8 E.', [('P', 8, 0), note('E')[:4] + (1,)]
+                stmts.append(va)
+                toks.append(ta)
+                # and once more: the states must have stayed with their voices
+                stmts.append([b'MBC', b'D', b'E'])
+                toks.append([[('MB',), note('C')], [note('D')], [note('E')]])
+                hists.append(({'vars': [], 'stmts': stmts}, toks, {}))
+    return hists
+
+
+def random_multi(rng):
+    g = Gen(rng, multivoice=True)
+    stmts, toks = [], []
+    for _ in range(rng.choice([1, 2, 3, 4])):
+        nvoices = rng.choice([1, 2, 2, 3, 3, 3])
+        which = sorted(rng.sample([0, 1, 2], nvoices))
+        texts, tls = [b'', b'', b''], [[], [], []]
+        for j, v in enumerate(which):
+            tl, text = g.sequence(rng.choice([1, 2, 3, 4, 5, 7]), 0)
+            if j == 0:
+                tl, text = [('MB',)] + tl, rng.choice([b'MB', b'mb ', b'M B']) + text
+            texts[v], tls[v] = text, tl
+        for v in range(3):
+            # an omitted argument instead of an empty string (PLAY A$,,C$ / PLAY ,B$)
+            if v not in which and rng.random() < 0.5:
+                texts[v] = None
+        if all(not t for t in texts):
+            texts[0], tls[0] = b'MB', [('MB',)]
+        stmts.append(texts)
+        toks.append(tls)
+    variables = [(n, 'n', v) for n, v in sorted(g.nums.items()) if n != b'N']
+    variables.append((b'N!', 'n', g.nums[b'N']))
+    variables.append((b'R!', 'a', list(g.arr)))
+    for j in range(4):
+        g.make_sub(j)
+        variables.append((b'S%d$' % j, 's', g.subs[j][1]))
+    return {'vars': variables, 'stmts': stmts}, toks, g.subs
+
+
+def fuzz_multi(rng):
+    def rnd(maxlen):
+        n = rng.choice([0, 0, 1, 2, 3, 5, 8, maxlen])
+        return bytes(bytearray(rng.choice(bytearray(FUZZ_ALPHABET + b'VVvv')) for _ in range(n))) + b' MB'
+    variables = [(b'I%', 'n', rng.choice(NUM_POOL)), (b'J%', 'n', rng.randint(0, 6)),
+                 (b'R!', 'a', [rng.choice(NUM_POOL) for _ in range(6)])]
+    variables += [(b'S%d$' % j, 's', rnd(8)) for j in range(2)]
+    stmts = []
+    for _ in range(rng.choice([1, 2, 3])):
+        voices = [b'MB' + rnd(14), rng.choice([b'', None, rnd(14)]), rng.choice([b'', None, rnd(14), rnd(14)])]
+        stmts.append(voices)
+    return {'vars': variables, 'stmts': stmts}
+
+
+def oracle_multi(ctx, state, syntax, hist, toklists, subs, res):
+    """per voice: the voice's queue is what the voice's own string specifies, from the voice's own state"""
+    exps = [Expect(), Expect(), Expect()]
+    for i, (tls, (status, tones)) in enumerate(zip(toklists, res)):
+        if status == 'skipped':
+            return
+        plans = []
+        for v in range(3):
+            out = []
+            err = exps[v].run(tls[v], subs, out)
+            plans.append((out, err))
+        ctx.case(('m', syntax, i, repr(hist['stmts'][:i + 1]), repr(hist['vars'])))
+        ctx.count('multi:%s:%d-voice' % (syntax, sum(1 for m in hist['stmts'][i] if m)))
+        kinds = set(t[0] for tl in tls for t in tl)
+        tag = 'multi:' + '+'.join(sorted(kinds))
+        case = {'kind': 'multi', 'syntax': syntax, 'hist': jsonable_multi(hist), 'stmt': i,
+                'tokens': [[[list(t) for t in tl] for tl in st] for st in toklists],
+                'subs': {str(j): [list(t) for t in v[0]] for j, v in subs.items()}}
+        if status.startswith('exc:'):
+            ctx.fail('host-exception:' + tag, case, 'PLAY let %s escape' % status[4:])
+            return
+        if status == 'hang':
+            ctx.fail('hang:' + tag, case, 'PLAY did not return')
+            return
+        any_err = any(err is not None for _, err in plans)
+        want = 'err5' if any_err else 'ok'
+        if status != want:
+            ctx.fail('status:' + tag, case, 'expected %s, got %s' % (want, status))
+            return
+        stray = [t for t in tones if t[0] not in (0, 1, 2)]
+        if stray:
+            ctx.fail('signal:' + tag, case, 'tone on voice %r' % (stray[0][0],))
+            return
+        for v in range(3):
+            queue_v = [t for t in tones if t[0] == v]
+            ctx.count('multi: tones expected', len(plans[v][0]))
+            if not check_tones(ctx, state, '%s:voice%d' % (tag, v), case, plans[v][0], queue_v, on_voice=v,
+                               prefix=any_err, multivoice=True):
+                return
+        if any_err:
+            # how far each voice got before the error is a matter of the round-robin order, which the
+            # statement does not fix: the expected per-voice states are unknown from here on
+            ctx.count('multi: oracle stops after a statement with an error')
+            return
+
+
+def multivoice(ctx, n_random, n_fuzz, state):
+    ctx.log('three-voice PLAY (tandy, pcjr)')
+    for syntax, prelude in (('tandy', None), ('pcjr', b'SOUND ON')):
+        impl = Impl(syntax=syntax, prelude=prelude)
+        try:
+            cases = family_multi(ctx.rng) if (ctx.quick and syntax == 'tandy') or not ctx.quick else \
+                family_multi(ctx.rng)[::3]
+            cases += [random_multi(ctx.rng) for _ in range(n_random)]
+            batch = []
+            for hist, toklists, subs in cases:
+                # keep every voice below the background buffer
+                probe = [Expect(), Expect(), Expect()]
+                too_long = False
+                for tls in toklists:
+                    for v in range(3):
+                        out = []
+                        probe[v].run(tls[v], subs, out)
+                        if sum(2 if e[0] == 'note' else 1 for e in out) > MAX_ITEMS - 2:
+                            too_long = True
+                if too_long:
+                    ctx.count('multi: regenerated (too many tones for the background buffer)')
+                    continue
+                res, st = impl.run_history_multi(hist)
+                batch.append((hist, res, st))
+                oracle_multi(ctx, state, syntax, hist, toklists, subs, res)
+            compare_multi(ctx, batch, 'multi:' + syntax)
+            if batch and len(ctx.samples) < 6:
+                h, r, _ = batch[-1]
+                ctx.sample({'syntax': syntax, 'stmts': jsonable_multi(h)['stmts'],
+                            'impl': ['/'.join([s_] + [canon_tone_v(t) for t in tn]) for s_, tn in r]})
+            # fuzz: model first (to skip what would block on the buffer), then the implementation
+            hists = [fuzz_multi(ctx.rng) for _ in range(n_fuzz)]
+            pres = ctx.model([model_line_multi(h) for h in hists])
+            batch = []
+            for hist, pre in zip(hists, pres or []):
+                body = pre.split(' ')[1] if pre.startswith('ok ') else ''
+                per_voice = [max([sum(1 for e in st.split('/')[1:] if e.startswith('v%d:' % v)) for v in range(3)])
+                             for st in body.split(';')] if body else [99]
+                if 'hang' in body or max(per_voice) > MAX_ITEMS - 2:
+                    ctx.count('multi fuzz: skipped')
+                    continue
+                res, st = impl.run_history_multi(hist)
+                batch.append((hist, res, st))
+                for i, (status, tones) in enumerate(res):
+                    if status == 'skipped':
+                        continue
+                    ctx.case(('mf', syntax, repr(hist)))
+                    ctx.count('multi fuzz:' + status.split(':')[0])
+                    case = {'kind': 'multifuzz', 'syntax': syntax, 'hist': jsonable_multi(hist), 'stmt': i}
+                    if status.startswith('exc:') or status == 'hang' or status.startswith('out:'):
+                        ctx.fail('%s:multifuzz' % status.split(':')[0], case, 'PLAY %r ended with %s'
+                                 % (hist['stmts'][i], status))
+                    for t in tones:
+                        if t[0] not in (0, 1, 2) or t[3] or not (t[1] == 0 or freq_index(t[1]) in range(9, 84)) \
+                                or not t[2] > 0:
+                            ctx.fail('signal:multifuzz', case, 'PLAY %r queued %r' % (hist['stmts'][i], t))
+                            break
+            compare_multi(ctx, batch, 'multifuzz:' + syntax)
+        finally:
+            impl.close()
+
+
 def run(ctx):
     impl = Impl()
     state = {}
@@ -815,6 +1148,7 @@ def run(ctx):
     finally:
         flush_model(ctx)
         impl.close()
+    multivoice(ctx, 60 if ctx.quick else 1000, 30 if ctx.quick else 500, state)
     ctx.notes['frequency_reference'] = '440*2^((i-33)/12) for the 0-based NOTE_FREQ index i, 1e-9 relative'
 
 
@@ -837,6 +1171,20 @@ def replay(ctx, payload):
                 err = ex.run(toks, subs, out)
                 if res[i][0] != 'skipped':
                     check_stmt(sub, state, last_kind(toks, subs), case, out, err, res[i][0], res[i][1])
+        elif kind in ('multi', 'multifuzz'):
+            impl.close()
+            impl = Impl(syntax=case['syntax'], prelude=b'SOUND ON' if case['syntax'] == 'pcjr' else None)
+            hist = unjson_multi(case['hist'])
+            res, st = impl.run_history_multi(hist)
+            if kind == 'multi':
+                toklists = [[[tuple(t) for t in tl] for tl in stt] for stt in case['tokens']]
+                subs = {int(j): ([tuple(t) for t in v], b'') for j, v in case['subs'].items()}
+                oracle_multi(sub, state, case['syntax'], hist, toklists, subs, res)
+            else:
+                for status, tones in res:
+                    if status.startswith('exc:') or status == 'hang' or status.startswith('out:'):
+                        return 'PLAY still ends with %s' % status
+                return None
         elif kind == 'table':
             table_check(sub, impl, state)
         elif kind == 'recursive' or kind == 'nested':
